@@ -36,6 +36,30 @@ fn install_hook() {
                 format!("{}:{}", f, l.line())
             })
             .unwrap_or_else(|| "?".into());
+        // when the panic is raised inside a shared helper (font-types operators, core::num), name
+        // the first fontations frames of the caller chain as well
+        let loc = if loc.starts_with("font-types/") || loc.starts_with("/rustc/") {
+            let bt = std::backtrace::Backtrace::force_capture().to_string();
+            let mut callers: Vec<String> = vec![];
+            for line in bt.lines() {
+                let l = line.trim();
+                if let Some(pos) = l.find(": ") {
+                    let f = &l[pos + 2..];
+                    if (f.starts_with("skrifa::") || f.starts_with("read_fonts::") || f.starts_with("klippa::") || f.starts_with("incremental_font_transfer::") || f.starts_with("<skrifa::") || f.starts_with("<read_fonts::") || f.starts_with("<klippa::")) && callers.len() < 2 {
+                        // drop the hash suffix
+                        let f = match f.rfind("::h") {
+                            Some(i) if f.len() - i == 19 => &f[..i],
+                            _ => f,
+                        };
+                        let f = f.replace("skrifa::outline::glyf::hint::", "hint::");
+                        callers.push(f.to_string());
+                    }
+                }
+            }
+            format!("{loc}<-{}", callers.join("<-"))
+        } else {
+            loc
+        };
         LAST_SITE.with(|s| *s.borrow_mut() = loc);
     }));
 }
